@@ -90,7 +90,8 @@ Definition res_py_eq (a b : result json) : bool :=
 (* the reference step: new reference state, and whether the observed result is acceptable *)
 Definition rstep (rs : rstate) (it : jitem) (o : obs5) : rstate * bool :=
   match it with
-  | JOpen j f =>
+  | JCwd _ => (rs, res_py_eq (o_ret o) (Ok JNull))
+  | JOpen j f _ =>
       ({| r_docs := r_docs rs; r_dirs := r_dirs rs; r_jobs := nset j f (r_jobs rs); r_depth := r_depth rs; r_acc := r_acc rs |}, true)
   | JOp j p op =>
       match nlookup j (r_jobs rs) with
@@ -192,7 +193,7 @@ Fixpoint shared_in_block (jobs : list (N * N)) (d : nat) (acc : list (N * (list 
   | [] => false
   | it :: r =>
       match it with
-      | JOpen j f => shared_in_block (nset j f jobs) d acc r
+      | JOpen j f _ => shared_in_block (nset j f jobs) d acc r
       | JRekey j f' => shared_in_block (nset j f' jobs) d acc r
       | JEnter _ => shared_in_block jobs (S d) acc r
       | JExit => match d with
@@ -232,11 +233,29 @@ Definition obs_marked (o : obs5) : bool :=
   match o_ret o with Ok v => has_marker v | Err _ => false end
   || existsb (fun kv => has_marker (snd kv)) (o_files o).
 
-(* ---- known finding 3: job.remove() inside a buffered block while the job's document is in the buffer and
-        its file existed when it was buffered: the entry outlives the file; the flush finds the file changed
-        (MetadataError) or its directory gone and raises BufferedError — on block exit, or out of whatever
-        operation forces a flush — and what was buffered for the re-created job is dropped.  Recognised by:
-        the program removes a job inside a block AND the model run predicts a BufferedError ---- *)
+(* ---- known finding 3: job.remove() inside a buffered block while the job's document is in the buffer.
+        Job.remove() deletes the directory behind the buffer's back; the entry outlives the file.  If the file
+        existed when it was buffered the flush finds it changed (MetadataError) or its directory gone and raises
+        BufferedError — on block exit, or out of whatever operation forces a flush — and what was buffered for
+        the re-created job is dropped; if the removing Job object is not the one whose collection buffered the
+        document, nothing is cleared and the removed document's buffered content reappears in the re-created job.
+        Recognised on the model run: at a JRemove inside a block the buffer holds an entry for that job's file ---- *)
+Fixpoint remove_while_buffered (frepr : fl -> str) (js : jstate) (prog : list jitem) : bool :=
+  match prog with
+  | [] => false
+  | it :: r =>
+      (match it with
+       | JRemove j =>
+           match depth (core js), nlookup j (jobs js) with
+           | S _, Some (f, _) => match nlookup f (buf (core js)) with Some _ => true | None => false end
+           | _, _ => false
+           end
+       | _ => false
+       end) || remove_while_buffered frepr (fst (jstep frepr merge js it)) r
+  end.
+
+(* the dropped collection's clear() can also be what puts the document into the buffer (it was opened before the
+   block): then the program removes a job inside a block and the model predicts a BufferedError *)
 Fixpoint remove_in_block (d : nat) (prog : list jitem) : bool :=
   match prog with
   | [] => false
@@ -249,7 +268,7 @@ Definition predicts_buffered_error (c : case_C05) : bool :=
   existsb (fun o => match o_ret o with Err ERuntimeError => true | _ => false end) (run_C05 c).
 
 Definition classify_C05 (c : case_C05) : N :=
-  if remove_in_block 0 (c5_prog c) && predicts_buffered_error c then 3%N
+  if (remove_in_block 0 (c5_prog c) && predicts_buffered_error c) || remove_while_buffered (ftab5 (c5_ftab c)) (init_js (c5_cap0 c)) (c5_prog c) then 3%N
   else if existsb obs_marked (run_marked c) then 2%N
   else if shared_in_block [] 0 [] (c5_prog c) then 1%N else 0%N.
 
